@@ -133,6 +133,28 @@ def run(ctx, H):
                     ct = None
             reqs.append({"tid": e.tid, "body": body, "content_type": ct, "query": query_of(p, ctx.rng), "cfg": cfg})
             meta.append(e)
+    # a few requests whose rejection message is tens of kilobytes long, judged inside the harness (Coq parses such
+    # literals too slowly): the body of the rejection must be exactly the message of deserialize on the same document
+    bigreqs, bigmeta = [], []
+    for e in sel[::5]:
+        p = K.gen_valid(e.ty, ctx.rng)
+        for big in ("x" * 20000, "\u20ac" * 7000, [{"i": str(i)} for i in range(4000)]):
+            q = K.set_at(p, ctx.rng.choice(list(K.positions(p))), big)
+            if K.is_json_doc(q):
+                bigreqs.append({"tid": e.tid, "body": to_json_text(q), "content_type": "application/json", "query": "", "cfg": None, "big": True})
+                bigmeta.append(e)
+    bobs = C.run_harness(binary, bigreqs) if bigreqs else []
+    nbig_err = 0
+    for r, e, o in zip(bigreqs, bigmeta, bobs):
+        if o.get("big") is True:
+            nbig_err += 1 if o.get("direct_is_err") else 0
+            if not (o.get("actix_same") and o.get("axum_same")):
+                ctx.violation("big-%d" % len(ctx.violations), {"kind": "the rejection of a large failing document does not carry exactly the deserr error (status 400, body = message)",
+                                                              "type": e.rust(), "request_body_bytes": len(r["body"]), "request_body_head": r["body"][:300], "impl": o})
+        elif "panic" in o:
+            ctx.violation("big-panic-%d" % len(ctx.violations), {"kind": "an extractor panicked on a large document", "type": e.rust(), "request_body_head": r["body"][:300]})
+    ctx.coverage["large_message_requests"] = len(bigreqs)
+    ctx.coverage["large_message_rejections"] = nbig_err
     obs = C.run_harness(binary, reqs)
     # float texts for the documents
     bits = set()
